@@ -60,8 +60,9 @@ import threading
 
 @contextlib.contextmanager
 def wall_clock_limit(seconds: float):
-    """Raises Livelock in the main thread when the block takes longer than `seconds` of REAL time: code under test that
-    spins without ever awaiting cannot be stopped from inside the event loop."""
+    """Raises Livelock in the main thread when the block burns more than `seconds` of CPU time of this process (not wall-clock
+    time: a process that is merely descheduled on a busy machine does not trip it): code under test that spins without ever
+    awaiting cannot be stopped from inside the event loop."""
     state = type("Limit", (), {"fired": False})()
     if threading.current_thread() is not threading.main_thread():
         yield state
@@ -69,14 +70,14 @@ def wall_clock_limit(seconds: float):
 
     def on_alarm(signum, frame):
         state.fired = True          # the code under test may swallow the exception: the flag stays, the timer fires again
-        raise Livelock(f"no result after {seconds} s of wall-clock time")
-    old = signal.signal(signal.SIGALRM, on_alarm)
-    signal.setitimer(signal.ITIMER_REAL, seconds, 1.0)
+        raise Livelock(f"no result after {seconds} s of CPU time")
+    old = signal.signal(signal.SIGVTALRM, on_alarm)
+    signal.setitimer(signal.ITIMER_VIRTUAL, seconds, 1.0)
     try:
         yield state
     finally:
-        signal.setitimer(signal.ITIMER_REAL, 0)
-        signal.signal(signal.SIGALRM, old)
+        signal.setitimer(signal.ITIMER_VIRTUAL, 0)
+        signal.signal(signal.SIGVTALRM, old)
 
 
 def run(coro_fn, patch_modules=(), max_iters=None):
